@@ -126,6 +126,8 @@ NodeBuckets::NodeBuckets(Graph &graph) :
 }
 
 NodesById NodeBuckets::takeLeaves(void) {
+    // A graph without any edges has no bucket for degree 1.
+    if (m_buckets.size() < 2) return NodesById();
     // Make a copy of the bucket of leaves, i.e. nodes of degree 1.
     NodesById leaves(m_buckets[1]);
     // Now can clear the leaf bucket...
